@@ -232,7 +232,7 @@ def run_refdeal(ck, prop, tier, vh, seed, only_shapes=None):
     reps = 1 if tier == 'quick' else 6
     for r in range(reps):
         for m in matrix:
-            if only_shapes and m['shape'] not in only_shapes and m['shape'] != 'cancel':
+            if only_shapes and (m['shape'] not in only_shapes or m.get('relation')) and m['shape'] != 'cancel':
                 continue
             cases.append(dict(m, id='rd-%d' % len(cases), seed=vlib.jseed(seed, len(cases), 77)))
     cp = os.path.join(vlib.subdir('scripts'), 'refdeal.ndjson')
@@ -248,7 +248,7 @@ def run_refdeal(ck, prop, tier, vh, seed, only_shapes=None):
         for v in r['violations']:
             if v['property'] == prop:
                 ck.violation('%s:%s' % (prop, v['predicate']), '%s: %s' % (v['predicate'], v['detail']), {'family': 'dkg-refdeal', 'case': c})
-        ck.case('refdeal:' + vlib.digest([c['proto'], c['n'], c['t'], c['dealer'], c['shape'], c['silent'], c['order']]), c['shape'] != 'generic')
+        ck.case('refdeal:' + vlib.digest([c['proto'], c['n'], c['t'], c['dealer'], c['shape'], c['silent'], c['order'], c.get('relation')]), c['shape'] != 'generic' or bool(c.get('relation')))
     if n != len(cases):
         raise vlib.Undecided('dkg-refdeal returned %d of %d results' % (n, len(cases)))
     ck.cov['reference_dealer_runs'] = n
